@@ -1257,7 +1257,7 @@ func (r *replicateChannelHandler) innerHandleReplicateMsg(forward bool, msg *api
 	msgPack := msg.MsgPack
 	verifYield("enter", r.targetPChannel, msg, nil)
 	p := r.handlePack(forward, msgPack, msg.TaskID, msg.PChannelName)
-	if p == api.EmptyMsgPack {
+	if p == nil || p == api.EmptyMsgPack {
 		verifYield("dropped", r.targetPChannel, msg, nil)
 		return
 	}
